@@ -228,6 +228,7 @@ public:
             //resume generator, function exits on co_yield or co_await
             h.resume();
             //block thread if the generator still running
+            COCLS_VERIF_BLOCK("gen_block", [&]{return _block.load();});
             _block.wait(false, std::memory_order_acquire);
         }
 
